@@ -10,7 +10,7 @@ EXTENDS Reply
 CONSTANT Progs       \* sequence of reply programs
 
 Recvs == {"submsg", "submsg_gas", "wasm", "cosmos_bank", "cosmos_wasm"}
-DataClasses == {"absent", "good", "good_inst", "empty_env", "bad_env", "bad_json"}
+DataClasses == {"absent", "good", "good_inst", "empty_env", "bad_env", "bad_json", "bare_json"}
 
 VARIABLES pi,      \* program (index into Progs)
           st,      \* "idle" | "built" | "replied" | "dispatched"
